@@ -39,6 +39,7 @@ class SrcInfo:
         self.enums = {}      # (module, Name) -> [variant names]
         self.enum_by_name = {}
         self.drop_types = set()
+        self.structs = {}    # Name -> [(module, [field names])]
         self._scan_enums()
 
     def lines(self, rel):
@@ -124,6 +125,19 @@ class SrcInfo:
                     variants = _variants(body)
                     self.enums[(mod, name)] = variants
                     self.enum_by_name.setdefault(name, []).append((mod, variants))
+                for m in re.finditer(r'\bstruct\s+(\w+)\s*(<[^{(;]*>)?\s*(?:where[^{]*)?\{', text):
+                    name = m.group(1)
+                    start = m.end() - 1
+                    try:
+                        end = _match_brace(text, start)
+                    except ValueError:
+                        continue
+                    fields = []
+                    for it in _variants_raw(text[start + 1:end]):
+                        mm = re.match(r'(?:pub(?:\([^)]*\))?\s+)?(\w+)\s*:', it)
+                        if mm:
+                            fields.append(mm.group(1))
+                    self.structs.setdefault(name, []).append((mod, fields))
                 for m in re.finditer(r'impl(?:<[^>]*>)?\s+Drop\s+for\s+(\w+)', text):
                     self.drop_types.add(m.group(1))
 
@@ -145,6 +159,21 @@ class SrcInfo:
         if std and variant in std:
             return std[variant]
         return None
+
+    def struct_fields(self, name, module_hint=None):
+        cands = self.structs.get(last_seg(name), [])
+        if not cands:
+            return None
+        if len(cands) > 1 and module_hint:
+            best = [c for c in cands if c[0] == module_hint or c[0].endswith(module_hint)]
+            if best:
+                return best[0][1]
+        if len(cands) > 1 and '::' in name:
+            pm = '::'.join(strip_generics(name).split('::')[:-1])
+            best = [c for c in cands if c[0] == pm or c[0].endswith('::' + pm)]
+            if best:
+                return best[0][1]
+        return cands[0][1]
 
     def variants_of(self, enum_ty):
         name = last_seg(enum_ty)
@@ -190,7 +219,7 @@ def _match_brace(text, i):
     raise ValueError('unbalanced')
 
 
-def _variants(body):
+def _split_items(body):
     # strip comments
     body = re.sub(r'//[^\n]*', '', body)
     body = re.sub(r'/\*.*?\*/', '', body, flags=re.S)
@@ -220,7 +249,25 @@ def _variants(body):
         i += 1
     if ''.join(cur).strip():
         items.append(''.join(cur))
-    for it in items:
+    return items
+
+
+def _variants_raw(body):
+    out = []
+    for it in _split_items(body):
+        t = it.strip()
+        while t.startswith('#'):
+            j = t.index('[')
+            k = _match_sq(t, j)
+            t = t[k + 1:].strip()
+        if t:
+            out.append(t)
+    return out
+
+
+def _variants(body):
+    out = []
+    for it in _split_items(body):
         t = it.strip()
         # drop attributes
         while t.startswith('#'):
